@@ -118,6 +118,9 @@ func init() {
 		c.Cov.Bound["B.verify_remember_budget"] = famB.VerBud
 		BFS(c, famA, 0)
 		BFS(c, famB, 0)
+		if c.Thorough() && !c.Expired() {
+			tallFamily(c, "C10")
+		}
 	}
 
 	Checks["C06"] = func(c *Ctx) {
